@@ -11,3 +11,7 @@ pub use downgrading_consistency::{
 };
 pub use fallthrough::{FallthroughRetryPolicy, FallthroughRetrySession};
 pub use retry_policy::{RequestInfo, RetryDecision, RetryPolicy, RetrySession};
+
+// Verification hook (inert unless built by `cargo kani`, which sets --cfg kani).
+#[cfg(kani)]
+mod verif_kani;
